@@ -11,7 +11,7 @@ import (
 func init() {
 	reg("C36", Meta{
 		Technique:   "must-guard reachability on SSA (plaintext only behind a MAC match / password compare, key generation only on the absent branch), sibling agreement of writer/reader MAC input, cipher key and KDF parameters",
-		Explanation: "C36 (keystores), structural clauses: (G1) file.decryptData decrypts and returns plaintext only behind a MAC match (bytes.Equal of the stored MAC with one of the two recomputed MACs), and the final mismatch returns keystore.ErrInvalidPassword; (G2) mem.Service.Key returns a stored key only behind password equality and otherwise ErrInvalidPassword; (G3) both Key implementations generate a key only on the branch where none is stored (file: empty data; mem: map miss), and return the stored/decrypted key otherwise; (A1) writer and reader agree on the MAC input (derivedKey[16:32] || cipherText), the cipher key (derivedKey[:16]) and the KDF parameters (the constants written are the ones passed to scrypt, the reader passes the stored N,R,P,DKLen). Not decided: scrypt/AES/keccak themselves; export→import value equality.",
+		Explanation: "C36 (keystores), structural clauses: (G1) file.decryptData decrypts and returns plaintext only behind a MAC match (bytes.Equal of the stored MAC with one of the two recomputed MACs), and the final mismatch returns keystore.ErrInvalidPassword; (G2) mem.Service.Key returns a stored key only behind password equality and otherwise ErrInvalidPassword; (G3) both Key implementations generate a key only on the branch where none is stored (file: empty data; mem: map miss), and return the stored/decrypted key otherwise; (F1) in ImportKey / ImportPrivateKey every path from the successful backup (rename) of the stored key file to a return passes the registration of the deferred restore — otherwise a failed import leaves no key file and the next Key() silently creates a new key under any password; (A1) writer and reader agree on the MAC input (derivedKey[16:32] || cipherText), the cipher key (derivedKey[:16]) and the KDF parameters (the constants written are the ones passed to scrypt, the reader passes the stored N,R,P,DKLen). Not decided: scrypt/AES/keccak themselves; export→import value equality.",
 		Assumptions: []string{"scrypt.Key, AES-CTR and keccak behave as specified"},
 	}, c36)
 }
